@@ -20,6 +20,14 @@ Init == CoreInit /\ prev = <<>>
 PrecisionKnown(r) ==
   /\ "diff-ignores-precision" \in KnownDevs /\ r.inv.precision > 0 /\ r.mode = "diff" /\ ~r.lib.err /\ r.lib.eq /\ r.lib.diff
 
+(* the two listed deviations of the merge reader (C12), seen through the binaries: the round trip of -f merge output fails *)
+(* exactly as the deviation predicts (the patch {} leaves a non-object a unchanged; the patch null yields the empty document) *)
+MergeRtKnown(r) ==
+  /\ r.inv.f = "merge" /\ r.rt.proc.exit = 0
+  /\ \/ "merge-empty-object-replaces" \in KnownDevs /\ r.lib.out = "{}" /\ r.rt.b = EmptyObj /\ ~IsObj(r.rt.a) /\ r.rt.doc = r.rt.a
+     \/ "merge-root-null-deletes" \in KnownDevs /\ r.lib.out = "null" /\ r.rt.b = Null /\ r.rt.doc = Void
+MergeRtName(r) == IF r.lib.out = "{}" THEN "merge-empty-object-replaces" ELSE "merge-root-null-deletes"
+
 TProc ==
   /\ IsEvent("Proc") /\ Consume
   /\ prev' = IF Rec.twin THEN prev ELSE [stdout |-> Rec.proc.stdout, exit |-> Rec.proc.exit, file |-> Rec.file]
@@ -40,7 +48,10 @@ TProc ==
           /\ Rec.twin => Check(pr.stdout = prev.stdout /\ pr.exit = prev.exit /\ Rec.file = prev.file, "C14", "stdin-differs-from-file")
           /\ ("rt" \in DOMAIN Rec) =>
                /\ Check(Rec.rt.proc.exit = 0, "C14", <<"round-trip-patch-fails", Rec.rt.proc.exit>>)
-               /\ Rec.rt.proc.exit = 0 => Check(Rec.rt.doc.k # "I" /\ Eq(Rec.rt.doc, Rec.rt.b, Rec.rt.opts), "C14", "round-trip-does-not-reproduce-b")
+               /\ Rec.rt.proc.exit = 0 =>
+                    IF Rec.rt.doc.k # "I" /\ Eq(Rec.rt.doc, Rec.rt.b, Rec.rt.opts) THEN TRUE
+                    ELSE IF MergeRtKnown(Rec) THEN PrintT(<<"JDV-KNOWN", Rec.sess, "C14", MergeRtName(Rec)>>)
+                    ELSE FailLine("C14", "round-trip-does-not-reproduce-b")
      /\ (Judge("C05") /\ o.kind = "lib" /\ Rec.mode = "diff" /\ ~Rec.lib.err) =>
              IF (pr.exit = 0) <=> Rec.lib.eq THEN TRUE
              ELSE IF PrecisionKnown(Rec) THEN PrintT(<<"JDV-KNOWN", Rec.sess, "C05", "diff-ignores-precision">>)
